@@ -23,9 +23,13 @@ theorem tie_ws_reader : wsStartReader =
   [["for:t.wsConn.Reader", "for:if:return", "for:ioutil.ReadAll", "for:if:return",
     "for:if:select(<-t.closeCtx.Done()):return"]] := by decide
 
+/-- `WebsocketTransport.Read` (after fix F-05e): first a non-blocking receive from the queue (`default:` is not an
+action), then the blocking select whose `closeCtx.Done()` arm polls the queue once more before it returns the error -/
 theorem tie_ws_read : wsRead =
-  ["select(<-t.closeCtx.Done()):t.closeCtx.Err", "select(<-t.closeCtx.Done()):return",
-   "select(<-t.queue):if:fmt.Fprintf", "select(<-t.queue):copy", "select(<-t.queue):return"] := by decide
+  ["select(<-t.queue):t.deliver", "select(<-t.queue):return",
+   "select(<-t.closeCtx.Done()):select(<-t.queue):t.deliver", "select(<-t.closeCtx.Done()):select(<-t.queue):return",
+   "select(<-t.closeCtx.Done()):t.closeCtx.Err", "select(<-t.closeCtx.Done()):return",
+   "select(<-t.queue):t.deliver", "select(<-t.queue):return"] := by decide
 
 /-- The TLS gate of `NewSession` does not depend on the kind of transport: STARTTLS is attempted whenever the
 transport is not secure, and the gate `!IsSecure() && !Insecure` follows unconditionally (it is not nested in a
